@@ -25,7 +25,7 @@ def tie(theorems, modules=("Qvnt.Lemmas.GenCore", "Qvnt.Lemmas.GenKOps", "Qvnt.L
 
 
 GEN2_MODULES = ["Qvnt.Lemmas." + m for m in ("GenQuant", "GenQProb", "GenOps", "GenBits", "GenH", "GenCtors", "GenQft", "GenSample", "GenVirtl",
-                                               "GenExtOp", "GenTwins", "GenCreg", "GenMeas", "GenSym", "GenInt")]
+                                               "GenExtOp", "GenTwins", "GenMatrix", "GenCreg", "GenMeas", "GenSym", "GenInt")]
 
 
 def tie2(theorems, sources, creg=False):
@@ -290,7 +290,7 @@ PROPS = {
     },
     "C01": {
         "modules": ["Qvnt.Props.C01"],
-        "tie": [tie(r".*_(op|isValid|actsOn|new)_eq|rotate_eq|negWord_eq|yIPow_eq|forEach_eq|ctrlTest_iff|count_bits_eq", sources=r"UNSUPPORTED (?!class\.rs|dispatch\.rs: dispatch\.rs::for_each_par)"), tie2(r"single_(apply|from)_eq|multi_apply_eq|quant_apply_eq|h_(loop|h)_eq|pauli_\w+_eq|rotate_\w+_eq|swapmod_\w+_eq|op_\w+_eq|checked_eq", r"UNSUPPORTED (mod\.rs: operator/|h\.rs|pauli\.rs|rotate\.rs|swap\.rs|quant\.rs: register/quant\.rs::apply:)")],
+        "tie": [tie(r".*_(op|isValid|actsOn|new)_eq|rotate_eq|negWord_eq|yIPow_eq|forEach_eq|ctrlTest_iff|count_bits_eq", sources=r"UNSUPPORTED (?!class\.rs|dispatch\.rs: dispatch\.rs::for_each_par)"), tie2(r"single_(apply|from)_eq|multi_apply_eq|quant_apply_eq|h_(loop|h)_eq|pauli_\w+_eq|rotate_\w+_eq|swapmod_\w+_eq|op_\w+_eq|checked_eq|multi_matrix_eq|matrixArr_eq_matrix", r"UNSUPPORTED (mod\.rs: operator/|h\.rs|pauli\.rs|rotate\.rs|swap\.rs|applicable\.rs|quant\.rs: register/quant\.rs::apply:)")],
         "suites": [
             suite("c01x", dict(count=0, max_n=3), dict(count=0, max_n=4)),
             suite("c01", dict(count=800, max_n=6), dict(count=20000, max_n=9)),
@@ -301,7 +301,7 @@ PROPS = {
         "assumptions": ASSUME_COMMON + ["angles enter the theorems as half-angle phases (c, s) with c*c + s*s = 1; the conversion angle -> (cos(a/2), sin(a/2)) is one libm call on each side", "the constants satisfy 2*h*h = 1 (FRAC_1_SQRT_2) and 2*half = 1 exactly in the theorems; in f64 they hold to rounding"],
         "level_text": "Lean theorems (Props/C01.lean, via Lemmas/Kernels, Multi, Ctor, Refine, Matrix): every kernel of src/operator/atomic equals the action of its documented matrix (one-qubit gates for any mask bit, two-qubit gates for any two distinct bits), the multi-bit forms of x y z s t and h are that gate on each selected qubit for EVERY 64-bit mask (including the wrapped i-power arithmetic of y/s/t), u1/u2/u3 are the documented products, constructors needing one/two target bits refuse exactly the other masks, the reported matrix is the linear map performed (finite-sum statement) and the map preserves the norm; for every angle (unit-circle phase), every register size, every state. Tied to the code by an exhaustive small-scope run (all gate kinds x all masks x all basis states, n <= 3; n <= 4 thorough) plus random leaf programs up to 6 (9) qubits, compared against the model and against the documented-matrix reference semantics.",
         "level_note": "Trusted: Lean kernel + standard axioms; hand-written model of the 18 reachable atomic kernels, SingleOp/MultiOp and the constructors of operator/mod.rs, multi/h.rs; the doc-comment matrices transcribed into Spec/Gates.lean. Rounding error is outside the theorems (commutative-ring scalars).",
-        "technique": tech_tie("atomic kernels, constructors, validity tests, element-wise sweep, SingleOp/MultiOp/QReg::apply and multi::h::h are"),
+        "technique": tech_tie("atomic kernels, constructors, validity tests, element-wise sweep, SingleOp/MultiOp/QReg::apply, multi::h::h and Applicable::matrix (row construction + in-place transposition) are"),
         "design_ref": "DESIGN.md section 5, C01",
     },
     "C02": {
@@ -319,7 +319,7 @@ PROPS = {
     },
     "C03": {
         "modules": ["Qvnt.Props.C03"],
-        "tie": [tie(r".*_(dgr|op)_eq|rotate_eq|negWord_eq", sources=r"UNSUPPORTED (\w+\.rs: \w+\.rs::(atomic_op|dgr|this|struct)|math/mod\.rs)"), tie2(r"single_dgr_eq|multi_dgr_eq", r"UNSUPPORTED mod\.rs: operator/(single|multi)/mod\.rs::dgr")],
+        "tie": [tie(r".*_(dgr|op)_eq|rotate_eq|negWord_eq", sources=r"UNSUPPORTED (\w+\.rs: \w+\.rs::(atomic_op|dgr|this|struct)|math/mod\.rs)"), tie2(r"single_dgr_eq|multi_dgr_eq|multi_matrix_eq|matrixArr_eq_matrix", r"UNSUPPORTED (mod\.rs: operator/(single|multi)/mod\.rs::dgr|applicable\.rs)")],
         "suites": [suite("c03", dict(count=800, max_n=5), dict(count=20000, max_n=8))],
         "mismatch_tags": [r"op", r"metadgr", r"metadgr\.(names|acton)"],
         "spec_tags": [r"c03\..*"],
@@ -327,7 +327,7 @@ PROPS = {
         "assumptions": ASSUME_COMMON + ["phases on the unit circle, constants exact (see C01)"],
         "level_text": "Lean theorems (Props/C03.lean): for every operator built from the public gate set (parameterised, controlled, products, qft, u2/u3), with unit-circle phases: dgr(o) after o and o after dgr(o) are the identity on every state, o * dgr(o) applies as the identity, the dagger's matrix is the conjugate transpose of the operator's matrix, dgr(a*b) = dgr(b)*dgr(a), dgr is involutive and commutes with .c. Proved through the refinement build = denote carrying the operator and its dagger together, plus unitarity of every documented matrix. Tied to the code by the c03 suite (random operators up to depth 3, metamorphic oracles: E then E.dgr, E.dgr then E, E*E.dgr, conjugate-transposed matrices, reversed names).",
         "level_note": "Trusted: Lean kernel + standard axioms; model of AtomicOp::dgr for all kinds (after the D1 repair), SingleOp::dgr, MultiOp::dgr.",
-        "technique": tech_tie("atomic kernels, their dgr(), SingleOp::dgr and MultiOp::dgr are"),
+        "technique": tech_tie("atomic kernels, their dgr(), SingleOp::dgr, MultiOp::dgr and Applicable::matrix are"),
         "design_ref": "DESIGN.md section 5, C03",
     },
     "C04": {
